@@ -23,6 +23,8 @@ func x1Scenarios(prop, tier string) []*Scenario {
 		return c08Scenarios(tier)
 	case "C13":
 		return c13Scenarios(tier)
+	case "C11":
+		return c11Scenarios(tier)
 	}
 	return nil
 }
@@ -69,7 +71,7 @@ func unitDeadline(tier string) time.Duration {
 	if tier == "thorough" {
 		return 12 * time.Minute
 	}
-	return 45 * time.Second
+	return 60 * time.Second
 }
 
 func runUnit(u Unit) UnitResult {
